@@ -15,6 +15,8 @@ from collections import defaultdict, Counter
 from . import arms as A
 from . import eff as E
 from . import ctl as CT
+from .core import FEATURE_SETS
+FEATURE_SET_NAMES = set(FEATURE_SETS)
 from .facts import MissingAnchor
 
 V = os.path.dirname(os.path.dirname(os.path.abspath(__file__)))
@@ -71,7 +73,8 @@ def enum_arm_groups(g, fn, enum_path, which=0):
     return sw, t, by, len(names)
 
 
-def extract(g, spec):
+def extract(g, spec, lenient=False):
+    """lenient (feature-set variants only): functions that are not compiled in this configuration are skipped"""
     kind = spec['kind']
     fn = g.fn(spec['fn']) if 'fn' in spec else None
     which = spec.get('which', 0)
@@ -89,7 +92,7 @@ def extract(g, spec):
     if kind == 'fnsum':
         # whole-body summary of each listed function: stores to *self, calls, error variants
         summ = A.ArmSummarizer(g)
-        paths = list(spec['fns'])
+        paths = [p_ for p_ in spec['fns'] if not lenient or p_ in g.fns]
         for path in paths:
             f2 = g.fn(path)
             if spec.get('reads'):
@@ -277,15 +280,28 @@ def row_diff(got, ref):
     return 'code %s != reviewed %s' % (json.dumps(got), json.dumps(ref))
 
 
-def run_spec(rep, g, spec, rule):
+def run_spec(rep, g, spec, rule, lenient=False):
     """compare extraction with the frozen table: one obligation per row"""
     table = load_table(spec['id'])
     rows = table['rows']
-    got = extract(g, spec)
-    fn = g.fn(spec['fn']) if 'fn' in spec else g.fn(spec['fns'][0])
+    if lenient:
+        # a feature-set variant: compare what is compiled there, note what is not
+        if 'fn' in spec and spec['fn'] not in g.fns:
+            rep.note('%s: %s is not compiled in this configuration' % (spec['id'], spec['fn']))
+            return {}
+        got = extract(g, spec, lenient=True)
+        if spec['kind'] == 'fnsum':
+            rows = {k: v for k, v in rows.items() if k in g.fns}
+        if not got:
+            return {}
+        fn = g.fn(spec['fn']) if 'fn' in spec else g.fn(sorted(got)[0])
+    else:
+        got = extract(g, spec)
+        fn = g.fn(spec['fn']) if 'fn' in spec else g.fn(spec['fns'][0])
     loc = fn.loc()
     floor = table.get('floor', max(1, len(rows) - 0))
-    rep.floor(rule, 'rows of %s' % spec['id'], len(got), floor)
+    if not lenient:
+        rep.floor(rule, 'rows of %s' % spec['id'], len(got), floor)
     for name in sorted(set(got) | set(rows)):
         key = '%s|%s' % (spec['id'], name)
         if name not in rows:
@@ -306,7 +322,7 @@ def run_specs(rep, ctx, prop):
     for sp in specs_for(prop):
         rep.rule(sp['rule'], 'per-arm fingerprint (%s) of %s equals the reviewed table tables/spec/%s.json'
                  % (sp['kind'], sp.get('fn') or '%d functions' % len(sp['fns']), sp['id']))
-        run_spec(rep, ctx.g, sp, sp['rule'])
+        run_spec(rep, ctx.g, sp, sp['rule'], lenient=getattr(ctx, 'variant', None) in FEATURE_SET_NAMES)
         n += 1
     return n
 
